@@ -57,6 +57,9 @@ class Exc(tuple):
         return self[1][0] if self[1] else None
 
 
+_INTLIKE = frozenset(["int", "bool"])
+
+
 class State:
     __slots__ = ("env", "facts", "events", "_cl")
 
@@ -81,6 +84,8 @@ class State:
                 self._cl = None
                 if f[0] == "eq" and is_const(f[2]):
                     self.facts.add(("type", f[1], frozenset([f[2][1]])))
+                if f[0] == "type" and f[2] and f[2] <= _INTLIKE and not is_const(f[1]):
+                    self.facts.add(("integral", f[1]))  # an int/bool equals its integer part
 
     def ev(self, *event):
         self.events = self.events + (event,)
